@@ -354,6 +354,9 @@ def check(fx, rep, tier):
              'requires (white space between any two tokens, comment lines before the interface, members, fields and variants) and nothing outside the grammar (rule R13.11 of C13)')
     c13.check_grammar(fx, rep, rule='R14.11')
     rep.floor('R14.11', 4, 'grammar inclusion verdicts (2 productions x 2 directions)')
+    rep.rule('R14.14', 'the empty object renders as `()` and parses back as the empty object: the struct production accepts the member-less list and is the first '
+             'alternative of its ordered choice that does (rule R13.12 of C13)')
+    c13.check_empty_inline(fx, rep, rule='R14.14')
     import imports as _imp
     _imp.layer(fx, rep, 'C14')
     return META
